@@ -7,6 +7,7 @@ import Ktm.DriverGrid
 import Ktm.DriverRandom
 import Ktm.DriverSync
 import Ktm.DriverSpace
+import Ktm.DriverCodec
 /-! Dispatcher of the line protocol: every line carries a `suite` field; `op = init` (re)starts the
     suite's state. -/
 open Lean
@@ -41,6 +42,7 @@ def handleLine (st : DSt) (line : String) : DSt × String :=
       let (s', out) := DriverRandom.handle cur j
       (match s' with | some s => .rnd s | Option.none => st, out)
     | "sync" => (st, DriverSync.handle j)
+    | "codec" => (st, DriverCodec.handle j)
     | "programs" => (st, DriverSpace.handle j)
     | "transforms" => (st, DriverTF.handle j)
     | "metrics" => (st, DriverMetrics.handle j)
